@@ -43,9 +43,16 @@ fn build_and_write(plan: &Plan, key: u64) -> Built {
 }
 
 /// Byte equality, except that the 8-byte entries of a FIR FCI are compared as a multiset.
-fn same_bytes(spec: &Spec, a: &[u8], b: &[u8]) -> bool {
+fn same_bytes(spec: &Spec, a: &[u8], b: &[u8], tail: usize) -> bool {
     if a == b {
         return true;
+    }
+    // a fixed packet appended behind both images (nesting wrappers): equal there, compare the rest
+    if tail > 0 {
+        if a.len() < tail || b.len() < tail || a[a.len() - tail..] != b[b.len() - tail..] {
+            return false;
+        }
+        return same_bytes(spec, &a[..a.len() - tail], &b[..b.len() - tail], 0);
     }
     let inner = match spec {
         Spec::Pb(i) => i.as_ref(),
@@ -175,7 +182,7 @@ struct Run {
 fn run_case(spec: &Spec, tape: &mut Tape, key_canon: u64, key_var: u64) -> Result<Run, String> {
     let mut spec = spec.clone();
     spec.normalise();
-    let wrap = if spec.is_whole_packet() && !matches!(spec, Spec::Third { .. } | Spec::Compound { .. } | Spec::Pb(_)) { tape.choose(3) } else { 0 };
+    let wrap = if spec.is_whole_packet() && !matches!(spec, Spec::Third { .. } | Spec::Compound { .. } | Spec::Pb(_)) { tape.choose(5) } else { 0 };
     let variant_inner = plan_with(&spec, tape);
     // harness self-check: the history reaches the target configuration under the model
     let mut reached = model(&variant_inner);
@@ -184,10 +191,23 @@ fn run_case(spec: &Spec, tape: &mut Tape, key_canon: u64, key_var: u64) -> Resul
         return Err(format!("harness: history does not reach the target spec under the model\n target {:?}\n reached {:?}\n plan {:?}", spec, reached, variant_inner));
     }
     let canonical = plan_canonical(&spec);
-    let variant = match (wrap, variant_inner) {
-        (1, Plan::Packet(pp)) => Plan::Pb(pp),
-        (2, p @ Plan::Packet(_)) => Plan::Compound(vec![p]),
-        (_, p) => p,
+    // wrappers: the packet-builder enum, a one-member compound, and both of them again as a
+    // NON-LAST member of an outer compound (where the outer builder asks the wrapper for its
+    // padding): the bare packet in the same position is the counterpart
+    let tail_plan = || plan_canonical(&Spec::Bye { sources: vec![], reason: String::new(), padding: 0 });
+    let mut tail = 0usize;
+    let (canonical, variant) = match (wrap, variant_inner) {
+        (1, Plan::Packet(pp)) => (canonical, Plan::Pb(pp)),
+        (2, p @ Plan::Packet(_)) => (canonical, Plan::Compound(vec![p])),
+        (3, p @ Plan::Packet(_)) => {
+            tail = 4;
+            (Plan::Compound(vec![canonical, tail_plan()]), Plan::Compound(vec![Plan::Compound(vec![p]), tail_plan()]))
+        }
+        (4, Plan::Packet(pp)) => {
+            tail = 4;
+            (Plan::Compound(vec![canonical, tail_plan()]), Plan::Compound(vec![Plan::Pb(pp), tail_plan()]))
+        }
+        (_, p) => (canonical, p),
     };
     let shape = fnv1a(FNV_INIT, shape_of(&variant).as_bytes());
     let a = build_and_write(&canonical, key_canon);
@@ -215,7 +235,7 @@ fn run_case(spec: &Spec, tape: &mut Tape, key_canon: u64, key_var: u64) -> Resul
         run.violation = Some((format!("write_result_differs@{kind}"), format!("canonical build: {:?}, history-built object: {:?}", a.write, b.write)));
         return Ok(run);
     }
-    if !same_bytes(&spec, &a.bytes, &b.bytes) {
+    if !same_bytes(&spec, &a.bytes, &b.bytes, tail) {
         let i = a.bytes.iter().zip(b.bytes.iter()).position(|(x, y)| x != y).unwrap_or(a.bytes.len().min(b.bytes.len()));
         run.violation = Some((format!("bytes_differ@{kind}"), format!("first difference at byte {i}: canonical {} vs history-built {}", hex(&a.bytes), hex(&b.bytes))));
         return Ok(run);
@@ -303,9 +323,20 @@ fn shape_of(p: &Plan) -> String {
             pk(pp, &mut s)
         }
         Plan::Compound(ms) => {
-            s.push_str("c1:");
-            if let Some(Plan::Packet(pp)) = ms.first() {
-                pk(pp, &mut s)
+            s.push_str(if ms.len() > 1 { "nested:" } else { "c1:" });
+            match ms.first() {
+                Some(Plan::Packet(pp)) => pk(pp, &mut s),
+                Some(Plan::Pb(pp)) => {
+                    s.push_str("pb:");
+                    pk(pp, &mut s)
+                }
+                Some(Plan::Compound(inner)) => {
+                    s.push_str("c1:");
+                    if let Some(Plan::Packet(pp)) = inner.first() {
+                        pk(pp, &mut s)
+                    }
+                }
+                _ => {}
             }
         }
         Plan::Chunk(c) => s.push_str(&format!("chunk{}", c.items.len().min(4))),
